@@ -180,3 +180,38 @@ def residual_orders(stencil_jets, oracle_jets, hs: tuple, etas: tuple | None = N
             best = v
             lead = (mono, coeff)
     return best, lead
+
+
+def piecewise_cases(expr, loop_syms) -> list:
+    """index values singled out by element stores into index-parametrised arrays: [(loop symbol, value)]"""
+    out = []
+    for pw in sp.sympify(expr).atoms(sp.Piecewise):
+        for e, c in pw.args:
+            if isinstance(c, sp.Equality):
+                for ls in loop_syms:
+                    if c.has(ls):
+                        sol = sp.solve(c, ls)
+                        for v in sol:
+                            if (ls, v) not in out:
+                                out.append((ls, v))
+    return out
+
+
+def resolve_piecewise(expr, fixed: dict | None = None):
+    """replace every Piecewise by the branch selected when the loop symbols take the values in `fixed`
+    (conditions only; the expressions keep the symbols); without `fixed`: the generic cell (default branch)"""
+    expr = sp.sympify(expr)
+
+    def pick(pw):
+        for e, c in pw.args:
+            if c is sp.true or c == True:  # noqa: E712
+                return e
+            if fixed is not None:
+                cv = c.subs(fixed)
+                if cv is sp.true or cv == True:  # noqa: E712
+                    return e
+        return pw.args[-1][0]
+
+    while expr.has(sp.Piecewise):
+        expr = expr.replace(lambda x: isinstance(x, sp.Piecewise), pick)
+    return expr
